@@ -238,6 +238,33 @@ def run(ctx):
             st["agreed"] += 1
             st["distinct"].add(("arc", j["base"]))
         st["hist"]["unopenable_archive_" + j["kind"]] += 1
+    # ---- (1d) "a run in which nothing fails exits with status 0 and an empty standard error" - with `symlinks`, over trees in which
+    #      every directory is listable and that hold links to regular files, to directories, dangling links and a self-link ----
+    for k in range(4 if ctx.tier == "quick" else 40):
+        ld = os.path.join(ctx.scratch, "okl%d" % k)
+        os.makedirs(os.path.join(ld, "docs", "deep"))
+        os.makedirs(os.path.join(ld, "ext_target"))
+        for nm in ("docs/notes.txt", "docs/deep/x.txt", "ext_target/h.txt", "a.txt"):
+            with open(os.path.join(ld, nm), "w") as f:
+                f.write("line\n")
+        os.symlink("notes.txt", os.path.join(ld, "docs", "to_file"))
+        os.symlink(os.path.join(ld, "a.txt"), os.path.join(ld, "docs", "deep", "to_file_abs"))
+        os.symlink("../ext_target", os.path.join(ld, "docs", "to_dir"))
+        os.symlink("nowhere", os.path.join(ld, "docs", "gone"))
+        if k % 2:
+            os.symlink("self", os.path.join(ld, "docs", "self"))
+        for root_, dirs_, files_ in os.walk(ld):
+            os.chmod(root_, 0o755)
+        rb = os.path.basename(ld)
+        for q in ("path from %s symlinks" % rb, "path from %s symlinks dfs" % rb, "name, size from %s symlinks order by name" % rb, "count(*) from %s symlinks" % rb, "path from %s/docs symlinks maxdepth 1" % rb):
+            st["evaluations"] += 1
+            r = ctx.impl.rows([q + " into list"], cwd=ctx.scratch, user=NOBODY)
+            case = {"tree": ld, "argv": [q], "uid": NOBODY}
+            if r["status"] != 0 or r["stderr"]:
+                ctx.violation("impl-violates-spec", "nothing is unreadable, yet the run with `symlinks` ends with status %s and stderr %r" % (r["status"], r["stderr"][:200]), input=case)
+            else:
+                st["agreed"] += 1
+                st["hist"]["fault_free_with_symlinks"] += 1
     # ---- (2) unreadable files / dangling links: only their own content columns are empty ----
     for j in jobs[::2][: (8 if ctx.tier == "quick" else 150)]:
         st["evaluations"] += 1
@@ -389,7 +416,7 @@ def run(ctx):
                 ctx.notes.append("F47: witness no longer hangs (status %s); update KNOWN_FINDINGS.json" % r["status"])
     ctx.coverage.update(
         evaluations=st["evaluations"], distinct_nontrivial=len(st["distinct"]), traces_validated_against_impl=st["agreed"],
-        rule="(1c) the archives option over a tree with a mode-000 archive and/or a dangling link named *.zip, as uid 65534: every other row (incl. the members of the readable archive) present, status 0, stderr empty; (1b) two-root searches where one root is itself unlistable (mode 000) or a regular file: status 1, the root named once on stderr, the healthy root complete; (1) random trees with 0-3 directories made unlistable (modes 700/711/000) searched as uid 65534, bfs and dfs, with and without maxdepth: rows must be exactly the entries outside those directories, stderr must name each failing directory, status 1 iff one is in reach; compared with model.Walk (listable flags from the observer) and an independent listing; (2) files made unreadable (600) and dangling links: only their own sha1/line_count/is_shebang are empty, sizes and other rows unchanged (hashlib oracle); (2b) COUNT/MIN/MAX/SUM(line_count), plain and grouped, over a directory with one mode-000 file (often the one holding the minimum) and a dangling link equal the aggregates of the readable files; (3) the reader closes stdout after k bytes for k in %s.. x six formats x streamed/ordered/filtered paths (+ aggregate and grouped): status 0 or 1 and no panic text. non-trivial = a run with at least one fault in reach" % offsets[:6],
+        rule="(1c) the archives option over a tree with a mode-000 archive and/or a dangling link named *.zip, as uid 65534: every other row (incl. the members of the readable archive) present, status 0, stderr empty; (1b) two-root searches where one root is itself unlistable (mode 000) or a regular file: status 1, the root named once on stderr, the healthy root complete; (1) random trees with 0-3 directories made unlistable (modes 700/711/000) searched as uid 65534, bfs and dfs, with and without maxdepth: rows must be exactly the entries outside those directories, stderr must name each failing directory, status 1 iff one is in reach; compared with model.Walk (listable flags from the observer) and an independent listing; (1d) fault-free trees with links to files, to directories, dangling links and a self-link searched with `symlinks` (streamed, ordered, aggregated): status 0 and empty stderr; (2) files made unreadable (600) and dangling links: only their own sha1/line_count/is_shebang are empty, sizes and other rows unchanged (hashlib oracle); (2b) COUNT/MIN/MAX/SUM(line_count), plain and grouped, over a directory with one mode-000 file (often the one holding the minimum) and a dangling link equal the aggregates of the readable files; (3) the reader closes stdout after k bytes for k in %s.. x six formats x streamed/ordered/filtered paths (+ aggregate and grouped): status 0 or 1 and no panic text. non-trivial = a run with at least one fault in reach" % offsets[:6],
         samples=st["samples"], distribution=dict(st["hist"]))
     return ctx.finish(trusted=["which write call the kernel fails after the reader closes the pipe depends on LineWriter buffering; the theorem quantifies over every write instead",
                                "permissions are judged for uid 65534 from the mode bits (files are created by root, so the 'other' bits apply)"])
